@@ -1,6 +1,20 @@
 import SJ.Props.C19
 import SJ.Props.C01Iff
+import SJ.Props.C19Nested
 #print axioms SJ.Props.C19.runPrefix_feed
 #print axioms SJ.Props.C19.c19_captured_reparses
 #print axioms SJ.Props.C19.skipWs_prefix
 #print axioms SJ.Props.C01Iff.c19_skip_language
+#print axioms SJ.Props.C19.c19_verbatim
+#print axioms SJ.Props.C19.c19_verbatim_top
+#print axioms SJ.Props.C19.c19_verbatim_bytes
+#print axioms SJ.Props.C19.c19_serR_is_ser
+#print axioms SJ.Props.C19.c19_raw_key_rejected
+#print axioms SJ.Props.C19.c19_top_span
+#print axioms SJ.Props.C19.c19_top_complete
+#print axioms SJ.Props.C19.c19_nested_capture
+#print axioms SJ.Props.C19.c19_nested_grammar
+#print axioms SJ.Props.C19.c19_nested_complete
+#print axioms SJ.Props.C19.c19_nested_canon
+#print axioms SJ.Props.C19.c19_nested_capture_map
+#print axioms SJ.Props.C19.c19_nested_grammar_map
